@@ -1,15 +1,22 @@
 """C02 — Stage outcome does not depend on the ordering of notifications.
 
-Implementation under test: the real Controller.run() / ComponentState / StageState of /repo under the
-deterministic runtime of harness/detsim.py.  Per case one (workflow, exit script per task execution) is run to
-the end of the stage loop under several random schedules (different delivery biases); no kill is injected.
+Implementation under test: the real Controller.initialise() / Controller.run() / ComponentState / StageState of
+/repo under the deterministic runtime of harness/detsim.py.  Per case one (workflow of 1-3 stages, exit script per
+task execution) is run through the whole stage loop (run() per stage, initialise() of the next stage, elaunch's
+continue-on-error rule) under several random schedules (different delivery biases); no kill is injected.
 Oracle (model independent, harness/ctrl_sim.py: expected_states / own_outcome restate the documented rules):
-  * the loop terminates, every component of the stage ends final and recorded in comp_done;
-  * no task can exit unrecoverably  => every schedule ends in exactly the rule-given map (and all schedules agree);
-  * some component ends failed       => UnexpectedJobFailureError, stage state failed, every other component in
-                                        its rule-given state (by the producers rule or by its own exit) or shut down.
-Correspondence: every recorded schedule is applied to the Lean model (drv-c02): states after every op, final map,
-`stageDone`, verdict and `spec` (== Python restatement) are compared.
+  * every run() terminates, every component of every stage that was run ends final and recorded in comp_done;
+  * a component that was seen in a final state is never seen in another state afterwards (stage transitions
+    included): exactly one final state;
+  * no task can exit unrecoverably  => every stage is run, every schedule ends in exactly the rule-given map (and
+                                        all schedules agree);
+  * some component ends failed       => the run() of the stage containing it raised UnexpectedJobFailureError and
+                                        that stage's state is failed, every other component of a stage that was run
+                                        is in its rule-given state (by the producers rule or by its own exit) or
+                                        shut down.
+Correspondence: every recorded schedule is applied to the Lean model (drv-c02): states after every op (current
+stage and stop_executing included), final map, `stageDone`, verdict, the reports of the stages left behind and
+`spec` (== Python restatement) are compared.
 Model: lean/St4sd/Model/Ctrl.lean.  Theorems: lean/St4sd/Props/C02.lean, Witness: lean/St4sd/Witness/C02.lean.
 """
 from __future__ import annotations
@@ -23,9 +30,12 @@ from harness import ctrl_sim as CS
 from harness import detsim
 from harness import c01 as C01
 
-RULE = ("case = (single-stage FlowIR template of 2-6 components with at most one replicated chain, aggregators, "
-        "repeating observers, random shutdownOn/restartHookOn/maxRestarts; exit script per component; K schedules "
-        "(quick 5, thorough 12) run to the end of Controller.run()).  Non-trivial = >= 3 components after "
+RULE = ("case = (FlowIR template of 2-8 components over 1-3 stages - random, or built around a motif: replicated "
+        "producer with an aggregating consumer in the same or a later stage / shutdown chain across stages / observer "
+        "with several subjects - with at most one replicated chain, aggregators (also without replicated inputs), "
+        "repeating observers, random shutdownOn/restartHookOn/maxRestarts, continue-on-error on some stages; exit "
+        "script per component; K schedules (quick 5, thorough 10) each run through the whole stage loop: "
+        "Controller.run() per stage, initialise() of the next one).  Non-trivial = >= 3 components after "
         "replication, >= 2 distinct op sequences among the K schedules and at least one component ends shut-down or "
         "failed or was restarted (the rules beyond 'success gives finished' are exercised).  Distinct by canonical "
         "JSON of (template, scripts).")
@@ -114,7 +124,8 @@ def check_group(ctx, case, schedules=None, tag_prefix=""):
             p = pers[(j + rng.randrange(len(pers))) % len(pers)] if j else "eager"
             factory = (lambda p: (lambda sim: CS.random_chooser(rng, p, 0.0)))(p)
         try:
-            res = CS.run_real(case["template"], scripts if scripts is not None else mk_scripts, factory)
+            res = CS.run_real(case["template"], scripts if scripts is not None else mk_scripts, factory,
+                              cont=case.get("cont", ()))
         except Exception as exc:  # noqa
             ctx.tag(tag_prefix + "build-error:" + type(exc).__name__)
             return None
@@ -131,7 +142,9 @@ def check_group(ctx, case, schedules=None, tag_prefix=""):
     full["schedules"] = [r.ops for r in runs]
     finals = [r.final for r in runs]
     detail = {"info": info, "expected": expected, "own": own, "finals": finals,
-              "results": [r.result for r in runs], "refs": [c["ref"] for c in info["comps"]]}
+              "results": [r.results for r in runs], "refs": [c["ref"] for c in info["comps"]]}
+    stage_of = [c["stage"] for c in info["comps"]]
+    n_stages = info["lastStage"] + 1
     distinct_ops = len(set(common.canon(r.ops) for r in runs))
     interesting = any(st != "finished" for f in finals for st in f) or \
         any(c[3] > 1 for r in runs for c in (r.snaps[-1]["comps"] if r.snaps else []))
@@ -143,44 +156,73 @@ def check_group(ctx, case, schedules=None, tag_prefix=""):
         tags.append("has:repeat")
     if any(c["isAgg"] for c in info["comps"]):
         tags.append("has:aggregator")
+    comps_ = info["comps"]
+    if any(c["isAgg"] and not any(comps_[p]["isRepl"] for p in c["preds"]) for c in comps_):
+        tags.append("has:aggregator-without-replicated-input")
+    if any(c["isAgg"] and any(comps_[p]["isRepl"] and comps_[p]["stage"] < c["stage"] for p in c["preds"])
+           for c in comps_):
+        tags.append("has:aggregator-in-later-stage-than-replicas")
+    tags.append("stages=%d" % n_stages)
+    if info["cont"]:
+        tags.append("has:continue-on-error")
+    for r in runs:
+        tags.append("stages-run=%d" % len(r.results))
+    if any(expected[i] != "finished" and any(stage_of[j] > stage_of[i] and i in comps_[j]["preds"]
+                                             for j in range(n))
+           for i in range(n)):
+        tags.append("has:later-stage-consumer-of-nonfinished-producer")
     if racy_observers(info, expected):
         tags.append("has:racy-observer")
     if len(set(common.canon(f) for f in finals)) > 1:
         tags.append("final-maps-differ-between-schedules")
     for st in sorted(set(expected)):
         tags.append("rule:" + st)
-    ctx.case({"template": case["template"], "scripts": scripts},
+    ctx.case({"template": case["template"], "cont": list(case.get("cont", ())), "scripts": scripts},
              nontrivial=(n >= 3 and distinct_ops >= 2 and interesting), tags=tags)
     ctx.tag("schedules-run", len(runs))
     ctx.tag("ops-compared", sum(len(r.ops) for r in runs))
     # ---- oracle -----------------------------------------------------------------------------
     for r in runs:
         if r.result == "stopped":
-            ctx.fail("stage-loop-did-not-terminate", full, {"ops": len(r.ops), "final": r.final})
+            ctx.fail("stage-loop-did-not-terminate", full, {"ops": len(r.ops), "final": r.final,
+                                                           "results": r.results})
             continue
-        if any(st not in CS.FINAL for st in r.final) or not all(r.done):
-            ctx.fail("component-not-final-after-run", full, {"final": r.final, "done": r.done, "result": r.result})
+        n_run = len(r.results)                      # stages 0 .. n_run-1 were run to the end of run()
+        in_run = [stage_of[i] < n_run for i in range(n)]
+        if any((st not in CS.FINAL or not r.done[i]) for i, st in enumerate(r.final) if in_run[i]):
+            ctx.fail("component-not-final-after-run", full, {"final": r.final, "done": r.done, "results": r.results})
+        for i, was, now in r.flips:
+            ctx.fail("component-left-its-final-state", full,
+                     dict(detail, component=info["comps"][i]["ref"], was=was, now=now, final=r.final))
         for what, i, at in r.launch_bad:
             ctx.fail("c01:" + what, full, {"component": info["comps"][i]["ref"], "after_ops": at})
-        failed_here = "failed" in r.final
-        if failed_here:
-            if r.result != "UnexpectedJobFailureError":
-                ctx.fail("failure:not-reported-by-run", full, dict(detail, result=r.result, final=r.final))
-            if r.stage_state != "failed":
-                ctx.fail("failure:stage-state-not-failed", full, dict(detail, stage_state=r.stage_state))
+        failed = [i for i, st in enumerate(r.final) if st == "failed"]
+        ujf = [k for k, x in enumerate(r.results) if x == "UnexpectedJobFailureError"]
+        if failed:
+            # the stage containing a failed component is reported as failed (by the run() of that stage)
+            not_reported = [i for i in failed if in_run[i] and stage_of[i] not in ujf]
+            if not_reported or not any(in_run[i] for i in failed):
+                ctx.fail("failure:not-reported-by-run", full, dict(detail, result=r.results, final=r.final))
+            if any(in_run[i] and r.stage_states[stage_of[i]] != "failed" for i in failed):
+                ctx.fail("failure:stage-state-not-failed", full, dict(detail, stage_states=r.stage_states,
+                                                                      final=r.final))
             if not may_fail:
                 ctx.fail("component-failed-without-unrecoverable-exit", full, dict(detail, final=r.final))
-            bad = [i for i, st in enumerate(r.final) if st not in ("failed", "shutdown", expected[i], own[i])
-                   or (st == "failed" and own[i] != "failed")]
+            bad = [i for i, st in enumerate(r.final)
+                   if (in_run[i] or st in CS.FINAL) and
+                   (st not in ("failed", "shutdown", expected[i], own[i]) or (st == "failed" and own[i] != "failed"))]
             if bad:
                 ctx.fail("failure:component-not-in-rule-state-or-shutdown", full, dict(detail, final=r.final, bad=bad))
         else:
             if must_fail:
-                ctx.fail("failure:no-component-failed", full, dict(detail, final=r.final, result=r.result))
+                ctx.fail("failure:no-component-failed", full, dict(detail, final=r.final, result=r.results))
             elif r.final != expected:
                 ctx.fail("final-state-differs-from-rules", full, dict(detail, final=r.final))
-            if r.result == "UnexpectedJobFailureError":
-                ctx.fail("run-reports-failure-without-failed-component", full, dict(detail, final=r.final))
+            if n_run != n_stages:
+                ctx.fail("stage-loop-ended-early-without-failure", full, dict(detail, result=r.results))
+        if ujf and not any(stage_of[i] in ujf for i in failed):
+            ctx.fail("run-reports-failure-without-failed-component", full, dict(detail, final=r.final,
+                                                                               result=r.results))
     if not may_fail and len(set(common.canon(r.final) for r in runs if r.result != "stopped")) > 1:
         ctx.fail("final-state-depends-on-schedule", full, detail)
     # ---- correspondence ---------------------------------------------------------------------
@@ -197,10 +239,13 @@ def check_group(ctx, case, schedules=None, tag_prefix=""):
                             {"at": kk, "op": r.ops[kk] if kk < len(r.ops) else None,
                              "snap": r.snaps[kk] if kk < len(r.snaps) else None})
             if r.result != "stopped":
-                ctx.compare("end of run(): stageDone, verdict, final map == model", one,
-                            {"stageDone": m["stageDone"], "verdict": m["verdict"],
+                ctx.compare("end of the stage loop: stageDone, verdict, reports, canAdvance, final map == model", one,
+                            {"stageDone": m["stageDone"], "verdict": m["verdict"], "reports": m["reports"],
+                             "canAdvance": m["canAdvance"],
                              "final": [c[0] for c in m["snaps"][-1]["comps"]] if m["snaps"] else []},
-                            {"stageDone": True, "verdict": r.result, "final": r.final})
+                            {"stageDone": True, "verdict": r.result,
+                             "reports": [[k, x] for k, x in enumerate(r.results[:-1])], "canAdvance": False,
+                             "final": r.final})
         ctx.compare("Ctrl.spec / Ctrl.own == documented rules restated in Python", {"template": case["template"],
                                                                                     "scripts": scripts},
                     {"spec": outs[0]["spec"], "own": outs[0]["own"]}, {"spec": expected, "own": own})
@@ -208,7 +253,8 @@ def check_group(ctx, case, schedules=None, tag_prefix=""):
 
 
 def gen_case(rng, k):
-    return {"template": CS.gen_template(rng, two_stage=False), "scripts": None, "seed": rng.randrange(1 << 30),
+    template, cont = CS.gen_workflow(rng)
+    return {"template": template, "cont": cont, "scripts": None, "seed": rng.randrange(1 << 30),
             "flavour": None, "k": k}
 
 
@@ -257,7 +303,8 @@ def setup(ctx):
     ctx.rule = RULE
     ctx.classifiers = CLASSIFIERS
     ctx.assumptions.append("exit reasons are a function of (component, execution number); no external kill; the "
-                           "stage is the only stage of the experiment")
+                           "experiment starts from stage 0 (no restart from a later stage); the stage loop of "
+                           "scripts/elaunch.py:Run is restated in harness/detsim.py (Sim.run)")
 
 
 def run_n(ctx, n, k):
@@ -280,7 +327,7 @@ def run(ctx):
     if ctx.tier == "quick":
         run_n(ctx, 75, 5)
     else:
-        run_n(ctx, 450, 12)
+        run_n(ctx, 400, 10)
 
 
 def replay(ctx, doc):
